@@ -28,6 +28,15 @@ for pid_mod in mods:
             spec_pre(vlib.REPO)
         except Exception as e:
             print("pre-step failed for %s: %s" % (pid_mod, e))
+try:
+    from specs import SPECS as _S
+    for c in man.get("checks", []):
+        for e in _S[c["property_id"]].get("extra_props", ()):
+            m = "LibfiberVerif.Props." + e
+            if m not in mods and os.path.exists(os.path.join(vlib.LEAN, "LibfiberVerif", "Props", e + ".lean")):
+                mods.append(m)
+except Exception:
+    pass
 if mods:
     with vlib.FileLock("lake"):
         r2 = vlib.sh(["lake", "build"] + mods, cwd=vlib.LEAN, timeout=7200)
